@@ -63,7 +63,7 @@ package masswallet
 //@ func (*WalletManager).existsUnminedTx
 //@   trusted
 //@   requires w != nil && hash != nil
-//@   ensures mtx != nil ==> txWF(mtx)
+//@   ensures mtx != nil ==> txWF(mtx) && len(mtx.TxOut) >= 1
 //@   ensures err == nil ==> mtx != nil
 
 // the transaction that created a credit of the current wallet, with the block it is mined in.  Assumed from the
@@ -97,3 +97,15 @@ package masswallet
 //@   at "msgTx.AddTxIn(txIn)" assert[C10] seqOK(pks, txIn.Sequence, LockTime, forks.EnforceMASSIP0002WarmUp(block.Height))
 //@   loop#1 invariant len(msgTx.TxIn) == old(len(msgTx.TxIn)) + iter_ && (sameBlock(msgTx.TxIn, old(msgTx.TxIn)) || fresh(msgTx.TxIn))
 //@   ensures[C10] result == nil ==> len(msgTx.TxIn) == old(len(msgTx.TxIn)) + len(inputUtxos)
+
+// signing: every previous transaction is looked up (mined credit, else pending store) before its outputs are indexed
+//@ func (*WalletManager).existsOutPoint
+//@   trusted
+//@   requires w != nil && out != nil
+//@   ensures (err == nil) == (utxoFlags != nil)
+//@ func (*WalletManager).signWitnessTx
+//@   props C19
+//@   requires wmWF(w) && txWF(tx) && params != nil
+//@   modifies *
+//@   loop#1 invariant wmWF(w) && txWF(tx) && sameSlice(tx.TxIn, old(tx.TxIn)) && params != nil && cacheWF(cache) && cacheMeta != nil && cache != nil
+//@   loop#1 invariant forall qk_ string :: has(cache, qk_) ==> len(valAt[*wire.MsgTx](cache, qk_).TxOut) >= 1
